@@ -158,8 +158,10 @@ std::string judge(const Case& k, const coop::RunResult& r, bool& inconclusive, v
     for (auto& o : r.out) if (o.text.rfind("bestmove", 0) == 0) tBest = o.vtimeNs;
     if (tGo < 0 || tBest < 0) return "no go/bestmove in the run";
     const long long budget = budgetOf(k);
-    const long long quantum = k.maxNps > 0 ? 10 * 1000000LL + 1000000LL : 0; // MaxNPS throttle sleeps ~10 ms per stop-test interval
     const int nbtc = r.nodesBetweenTimeCheck > 0 ? r.nodesBetweenTimeCheck : 1000;
+    // MaxNPS throttle: after each stop test the search sleeps until nodes/MaxNPS seconds have passed, i.e. one sleep
+    // quantum = the nodes searched since the previous stop test divided by MaxNPS
+    const long long quantum = k.maxNps > 0 ? (long long)(nbtc + gSlackNodes) * 1000000000LL / k.maxNps + 1000000LL : 0;
     const long long P = (long long)(nbtc + gSlackNodes) * k.nsPerNode + quantum + 1000000LL; // + 1 ms clock granularity
     // (1) limits handed to the search for this go (first report after the go) and by ponderhit
     const coop::LimitEvent* first = nullptr; const coop::LimitEvent* atHit = nullptr;
@@ -212,7 +214,7 @@ std::string judge(const Case& k, const coop::RunResult& r, bool& inconclusive, v
             if (tBest - tHit > P3) return "limits were exhausted at ponderhit but bestmove came " + std::to_string((tBest - tHit) / 1000) + " us later, polling interval " + std::to_string(P / 1000) + " us";
             if (stats) st.cls("ponderhit with exhausted limits");
         } else if (tStop < 0 || tBest < tStop) {
-            if (tBest - tGo > (long long)atHit->maxT * 1000000LL + P) return "after ponderhit bestmove " + std::to_string((tBest - tGo) / 1000) + " us after go, hard limit " + std::to_string(atHit->maxT) + " ms";
+            if (tBest - tGo > (long long)atHit->maxT * 1000000LL + P3) return "after ponderhit bestmove " + std::to_string((tBest - tGo) / 1000) + " us after go, hard limit " + std::to_string(atHit->maxT) + " ms";
         }
     }
     return "";
